@@ -362,6 +362,11 @@ func labC12(e labEnv) {
 			w.put(in, out)
 		}
 	}
+	nh := 12
+	if e.thorough() {
+		nh = 200
+	}
+	c12Histories(r, w, tags, nh)
 	must(w.close())
 	writeDist(e, "c12", tags)
 }
